@@ -419,6 +419,9 @@ def sub(base, idx):
         idx = mk("slice", *a_)
         if all(x.op == "const" and x.a[0] is None for x in a_):
             return base  # x[slice(None)]: everything
+    # x[:, k][i] is x[i, k]
+    if base.op == "sub" and base.a[1].op == "tuple" and len(base.a[1].a) == 2 and _is_full_slice(base.a[1].a[0]) and base.a[1].a[1].op == "const" and isinstance(base.a[1].a[1].a[0], float) and idx.op == "const" and isinstance(idx.a[0], float) and not isinstance(idx.a[0], bool):
+        return mk("sub", base.a[0], mk("tuple", idx, base.a[1].a[1]))
     # an element-wise function of a shape tuple, indexed: np.log2(x.shape)[k] is np.log2(x.shape[k])
     if base.op == "call" and callee_name(base.a[0]) in ("np.log2", "np.log", "np.sqrt", "np.abs", "np.exp", "np.log10") and len(base.a[1]) == 1 and not base.a[2] and base.a[1][0].op == "attr" and base.a[1][0].a[1] == "shape" and idx.op == "const" and isinstance(idx.a[0], float):
         return call(base.a[0], (sub(base.a[1][0], idx),))
